@@ -1,6 +1,7 @@
 import XcpProofs.FsDefs
 import XcpProofs.WalkMore
 import XcpProofs.MirrorExample
+import XcpProofs.Overlay
 /-! # C02 — exit 0 implies the destination tree mirrors the selected source tree
 
 Model slice: `targetBase` (cp's mapping rule), `walkEntry` (one operation per selected entry, by kind),
@@ -133,5 +134,49 @@ theorem fresh_destination_hypotheses_are_satisfiable :
       (∃ es, fs.root.getAt tb.names.dropLast = some (.dir es)) ∧ ¬ src.names <+: tb.names ∧ ¬ tb.names <+: src.names ∧
       (src.names.length + fuel < 200 ∧ tb.names.length + fuel < 200) ∧ (∃ es, srcNode = .dir es ∧ 3 ≤ es.length) :=
   MirrorExample.mirror_hypotheses_satisfiable
+
+/-- THE TREE INDUCTION, existing destination ("destination overlaid with the image"): as the previous theorem, but the
+target may already exist and is merged into — a second run of the same copy, or a destination directory holding other
+entries.  `Compatible dst src` (decidable) says that, position by position, the destination holds nothing, a regular file
+where the source has a regular or special file, a special file where the source has one, or a directory where the source
+has a directory (recursively); it EXCLUDES a symbolic link in the destination where the source has a file — that is the
+recorded finding F13 (written through) — and kind conflicts, which fail.  Then every operation succeeds and the final
+file system is the initial one with `Node.overlay dst src` at the target: source entries replace or are added to the
+existing ones, recursively -/
+theorem existing_destination_is_overlaid (fs : Fs) (c : Cfg) (hd : c.dereference = false) (hn : c.noClobber = false)
+    (src tb : RPath) (srcNode : Node) (fuel : Nat)
+    (hwf : FsEq fs fs) (hroot : fs.root.isDir = true)
+    (hsrc : PlainTarget fs src) (hsn : fs.root.getAt src.names = some srcNode)
+    (hcop : srcNode.Copyable fuel)
+    (htb : PlainTarget fs tb) (hne : tb.names ≠ [])
+    (hcompat : Compatible (fs.root.getAt tb.names) srcNode)
+    (hpar : ∃ es, fs.root.getAt tb.names.dropLast = some (.dir es))
+    (hun1 : ¬ src.names <+: tb.names) (hun2 : ¬ tb.names <+: src.names)
+    (hlen : src.names.length + fuel < 200 ∧ tb.names.length + fuel < 200) :
+    ∃ fs', execOps fs c (walkEntry fs c none src tb (fuel + 1) [] []) = ⟨.ok, fs'⟩ ∧
+      FsEq fs' { fs with root := fs.root.setAt tb.names (Node.overlay (fs.root.getAt tb.names) srcNode) } :=
+  mirror_overlay fs c hd hn src tb srcNode fuel hwf hroot hsrc hsn hcop htb hne hcompat hpar hun1 hun2 hlen
+
+/-- … and what the destination directory held under names the source directory does not list is observed unchanged,
+at every depth -/
+theorem existing_destination_keeps_other_entries (fs : Fs) (c : Cfg) (hd : c.dereference = false) (hn : c.noClobber = false)
+    (src tb : RPath) (des ses : Entries) (fuel : Nat)
+    (hwf : FsEq fs fs) (hroot : fs.root.isDir = true)
+    (hsrc : PlainTarget fs src) (hsn : fs.root.getAt src.names = some (.dir ses))
+    (hcop : (Node.dir ses).Copyable fuel)
+    (htb : PlainTarget fs tb) (hne : tb.names ≠ [])
+    (hdst : fs.root.getAt tb.names = some (.dir des))
+    (hcompat : Compatible (some (.dir des)) (.dir ses))
+    (hpar : ∃ es, fs.root.getAt tb.names.dropLast = some (.dir es))
+    (hun1 : ¬ src.names <+: tb.names) (hun2 : ¬ tb.names <+: src.names)
+    (hlen : src.names.length + fuel < 200 ∧ tb.names.length + fuel < 200) :
+    ∃ fs', execOps fs c (walkEntry fs c none src tb (fuel + 1) [] []) = ⟨.ok, fs'⟩ ∧
+      ∀ m q, m ∉ ses.map (·.1) → obsAt fs'.root (tb.names ++ m :: q) = obsAt fs.root (tb.names ++ m :: q) :=
+  mirror_overlay_keeps fs c hd hn src tb des ses fuel hwf hroot hsrc hsn hcop htb hne hdst hcompat hpar hun1 hun2 hlen
+
+/-- the overlay on a concrete pair: an existing file is replaced, an existing file the source lacks stays, a new one is added -/
+example : Node.overlay (some (.dir [([1], .file 0), ([2], .file 5), ([3], .dir [])]))
+    (.dir [([1], .file 7), ([4], .file 8), ([3], .dir [([9], .file 1)])]) =
+    .dir [([1], .file 7), ([2], .file 5), ([3], .dir [([9], .file 1)]), ([4], .file 8)] := by rfl
 
 end Xcp.C02
